@@ -436,10 +436,10 @@ def run(chk: core.Check) -> None:
         "mixing the C01 mutators with rstrip / optimize_width / transpose / set_span / del_span / extend_rows / set_column_cells / edits and repeat changes "
         "through a live row, 0-3 reads before each, decided by the live == fresh parse == independent reader oracle alone"
     )
-    run_histories(chk, chk.n(600, 12000), 8, compare_runs=False, reads=True, extra=extra)
-    run_row_histories(chk, chk.n(500, 8000))
-    run_obj_histories(chk, chk.n(700, 12000))
-    run_wide_histories(chk, chk.n(500, 10000))
+    run_histories(chk, chk.n(500, 7000), 8, compare_runs=False, reads=True, extra=extra)
+    run_row_histories(chk, chk.n(400, 5000))
+    run_obj_histories(chk, chk.n(600, 7000))
+    run_wide_histories(chk, chk.n(450, 5000))
 
 
 def replay(obj: dict) -> int:
